@@ -6,7 +6,11 @@ Generated from the current source on every run: Gen/Schemas.lean (attribute sche
 entity class, traced export order / subclass structure / loader calls per DXF version).
 -/
 import EzdxfVerif.Lemmas.Schema
+import EzdxfVerif.Lemmas.Payload
+import EzdxfVerif.Lemmas.Envelope
+import EzdxfVerif.Lemmas.DocReload
 import EzdxfVerif.Gen.Schemas
+import EzdxfVerif.Gen.PayloadTables
 
 namespace EzdxfVerif.Props.C01
 open EzdxfVerif.Schema
@@ -511,13 +515,13 @@ def enc (s : String) : Name := s.toList.foldl (fun a c => a * 256 + c.toNat) 0
 /-- (class, file version) pairs for which `wfPlan` genuinely fails on the unchanged tree:
     * MATERIAL: eleven group codes are shared by two or three *optional* attributes of the one
       subclass AcDbMaterial; a set attribute is loaded into the first unset attribute of its list
-      (known finding C01/shared-code, reproduced by the oracle);
-    * ATTRIB/ATTDEF in DXF R12: all tags are one flat list that is scanned with three mappings, and
-      group code 71 is `text_generation_flag` in the AcDbText mapping and `attribute_type` in the
-      AcDbAttribute mapping (known finding C01/r12-crosstalk). -/
+      (known finding C01/shared-code, reproduced by the oracle).
+    The former exceptions ATTRIB/ATTDEF in DXF R12 (group code 71 = `text_generation_flag` was loaded as
+    `attribute_type` as well, finding C01-F9) are fixed in the source (`dxf.discard("attribute_type")` for R12) and
+    removed: reverting that fix makes `schemas_wf` fail for these two plans. -/
 def wfExceptions : List (Name × Nat) :=
   [(enc "MATERIAL", 1015), (enc "MATERIAL", 1018), (enc "MATERIAL", 1021), (enc "MATERIAL", 1024),
-   (enc "MATERIAL", 1027), (enc "MATERIAL", 1032), (enc "ATTRIB", 1009), (enc "ATTDEF", 1009)]
+   (enc "MATERIAL", 1027), (enc "MATERIAL", 1032)]
 
 def classOK (c : ClassSchema) : Bool :=
   c.plans.all (fun p => wfPlan Gen.Schemas.recoverTable c.attrs p || wfExceptions.contains (c.dxftype, p.ver))
@@ -882,4 +886,881 @@ theorem link_flatten (ns : List Node) (h : ∀ n ∈ ns, nodeWF n = true) :
 #guard (link [⟨.insert false, 1⟩, ⟨.attrib, 2⟩, ⟨.polyline, 3⟩, ⟨.vertex, 4⟩, ⟨.seqend, 5⟩]).toOption.map List.length
     == some 3
 
+/-! ## 5. geometry payload written by hand-made `export_entity` / `load_dxf_attribs` code (Model/Payload.lean)
+
+Every statement is for ALL payload values and unbounded sizes; `pre` / `post` / `a1` / `a2` stand for the
+attribute tags that `export_dxf_attribs` writes around the payload (any tags that do not use the payload's group
+codes).  The loaders are the loops of the source; proofs in Lemmas/Payload.lean. -/
+
+open EzdxfVerif.Payload
+
+/-- SPLINE: knots (40), weights (41), control points (10) and fit points (11) come back in order, whatever
+    attribute tags surround the count tags 72/73/74; the loader hands exactly the other tags on to
+    `fast_load_dxfattribs`, without start/end tangents that are (almost) null vectors -/
+theorem spline_payload_roundtrip (a1 a2 : List Tag) (d : Spline)
+    (h1 : ∀ t ∈ a1, splineFree t = true) (h2 : ∀ t ∈ a2, splineFree t = true) :
+    loadSpline (exportSpline a1 a2 d) = (d, (a1 ++ splineCounts d ++ a2).filter splineKeeps) :=
+  spline_roundtrip' a1 a2 d h1 h2
+
+/-- the loop of `load_spline_data` sorts ANY tag list by group code (also files not written by ezdxf) -/
+theorem spline_load_by_code (tags : List Tag) :
+    loadSpline tags =
+      (⟨(tags.filter (·.code == 40)).map (fun t => dblOf t.val), (tags.filter (·.code == 41)).map (fun t => dblOf t.val),
+        (tags.filter (·.code == 10)).map (fun t => p3Of t.val), (tags.filter (·.code == 11)).map (fun t => p3Of t.val)⟩,
+       tags.filter (fun t => splineFree t && splineKeeps t)) :=
+  loadSpline_eq_filters tags
+
+example : splineFree ⟨70, .int 8⟩ = true ∧ splineFree ⟨12, .pt 0 0 0⟩ = true := by decide
+#guard loadSpline (exportSpline [⟨100, .str [1]⟩, ⟨70, .int 8⟩] [⟨12, .pt 0 0 0⟩, ⟨13, .pt one 0 0⟩] ⟨[1, 2], [], [(1, 2, 3)], []⟩)
+  == (⟨[1, 2], [], [(1, 2, 3)], []⟩, [⟨100, .str [1]⟩, ⟨70, .int 8⟩, tagN 72 2, tagN 73 1, tagN 74 0, ⟨13, .pt one 0 0⟩])
+
+/-- MESH: vertices, the count-prefixed face lists (90 n i1 … in), edges and crease values come back; the four
+    blocks are found by their count tags 92/93/94/95 and cut out of the subclass, the attribute tags and the
+    override marker (90, 0) stay.  Creases are padded / cut to the edge count by the writer. -/
+theorem mesh_payload_roundtrip (f32 : Nat → Nat) (pre post : List Tag) (m : Mesh)
+    (hpre : ∀ t ∈ pre, meshFree t = true) (hf : ∀ f ∈ m.faces, f ≠ [])
+    (hc : ∀ c ∈ m.creases, f32 c = c) (h0 : f32 0 = 0) :
+    loadMesh f32 (pre ++ exportMesh m ++ post) =
+      some ({ m with creases := fixCreases (m.edges.length / 2) m.creases }, pre ++ tagN 90 0 :: post) :=
+  mesh_roundtrip' f32 pre post m hpre hf hc h0
+
+/-- the face list parser inverts the writer for any number of faces of any (positive) size -/
+theorem mesh_faces_roundtrip (fs : List (List Int)) (hf : ∀ f ∈ fs, f ≠ []) :
+    createFaceList (fs.flatMap faceTags) = fs ∧ (fs.flatMap faceTags).length = tagCount fs :=
+  ⟨createFaceList_faces fs hf, faceTags_length fs⟩
+
+/-- the second cycle: the crease list the loader returns is a fixed point of the writer's adjustment -/
+theorem mesh_creases_stable (n : Nat) (cs : List Nat) : fixCreases n (fixCreases n cs) = fixCreases n cs := by
+  unfold fixCreases
+  by_cases h : cs.length ≤ n
+  · have : (cs.take n ++ List.replicate (n - cs.length) 0).length = n := by
+      simp [List.length_take]; omega
+    rw [List.take_of_length_le (by omega), this]; simp
+  · have hl : (cs.take n ++ List.replicate (n - cs.length) 0).length = n := by
+      simp [List.length_take]; omega
+    rw [List.take_of_length_le (by omega), hl]; simp
+
+#guard loadMesh id ([⟨100, .str [7]⟩, ⟨71, .int 2⟩] ++ exportMesh ⟨[(1, 2, 3)], [[0, 1, 2], [5]], [0, 1], [7, 8, 9]⟩ ++ [])
+  == some (⟨[(1, 2, 3)], [[0, 1, 2], [5]], [0, 1], [7]⟩, [⟨100, .str [7]⟩, ⟨71, .int 2⟩, tagN 90 0])
+-- a face without vertices cannot be read back (the hypothesis `f ≠ []` is necessary; `face_to_array` rejects it)
+#guard createFaceList ([[1, 2], [], [3]].flatMap faceTags) != [[1, 2], [], [3]]
+-- a file without one of the count tags is a DXFStructureError
+#guard loadMesh id [tagN 92 0, tagN 93 0, tagN 94 0] == none
+
+/-- MTEXT: text of any length, written as chunks (3 … 3 1) by `split_mtext_string(size=250)`, comes back as
+    `escape_dxf_line_endings(text)`; tags with other group codes pass through to the attribute loader -/
+theorem mtext_content_roundtrip (pre post : List Tag) (text : Str)
+    (h1 : ∀ t ∈ pre, mtextFree t = true) (h2 : ∀ t ∈ post, mtextFree t = true) :
+    loadMText (pre ++ exportMText text ++ post) = (escapeLE text, pre ++ post) :=
+  mtext_roundtrip' pre post text h1 h2
+
+/-- … which is the text itself when it holds no CR / LF, and in any case stable from the first cycle on -/
+theorem mtext_content_exact (text : Str) (h : ∀ c ∈ text, c ≠ '\r' ∧ c ≠ '\n') : escapeLE text = text :=
+  escapeLE_id text h
+
+theorem mtext_content_second_cycle (text : Str) : escapeLE (escapeLE text) = escapeLE text := escapeLE_idem text
+
+/-- no chunk is longer than 250 characters and none is empty (except the single chunk of an empty text) -/
+theorem mtext_chunk_bounds (text : Str) :
+    ∀ t ∈ exportMText text, (strOf t.val).length ≤ 250 ∧ (t.code = 1 ∨ t.code = 3) :=
+  mtext_chunks_bounded text
+
+#guard (exportMText (List.replicate 249 'a' ++ ['^', 'J'] ++ List.replicate 300 'b')).map (fun t => (t.code, (strOf t.val).length))
+  == [(3, 249), (3, 250), (1, 52)]
+#guard (loadMText (exportMText ['a', '\n', 'b', '\r'])).1 == ['a', '\\', 'P', 'b']
+
+/-- DICTIONARY: the (3 key, 350|360 handle) pairs come back in order for unique keys (a Python dict), any keys and
+    handles including empty strings; the value code is kept unless the dictionary is empty -/
+theorem dict_roundtrip (pre post : List Tag) (d : Dict)
+    (h1 : ∀ t ∈ pre, dictFree t = true) (h2 : ∀ t ∈ post, dictFree t = true)
+    (hc : d.valueCode = 350 ∨ d.valueCode = 360)
+    (hk : d.items.Pairwise (fun a b => a.1 ≠ b.1)) :
+    loadDict (pre ++ exportDict d ++ post) = ⟨if d.items = [] then 350 else d.valueCode, d.items⟩ :=
+  dict_roundtrip' pre post d h1 h2 hc hk
+
+/-- fix C01-F11 (`if dict_key is not None and entry_handle is not None`): an entry with the empty key is kept.
+    With the former test `if dict_key and entry_handle` the model (and the real loader) returned
+    `⟨350, [([65], [49])]⟩` here: the entry was dropped and its handle given to the next key. -/
+theorem dict_empty_key_kept :
+    loadDict (exportDict ⟨350, [([], [49]), ([65], [50])]⟩) = ⟨350, [([], [49]), ([65], [50])]⟩ := by decide
+
+#guard loadDict ([⟨280, .int 1⟩] ++ exportDict ⟨360, [([65], [49]), ([66], [50])]⟩ ++ []) == ⟨360, [([65], [49]), ([66], [50])]⟩
+
+/-- HATCH / MPOLYGON: one edge of any of the four types (spline edges with any number of knots, control points,
+    weights, fit points) is read back as the writer left it -/
+theorem hatch_edge_roundtrip (comp : Nat → Nat) (sub : P2 → P2 → P2) (r2010 : Bool) (e : Edge)
+    (h : edgeExportOK e = true) :
+    loadEdgeGroup comp (exportEdge comp sub r2010 e) = [canonEdge comp sub e] :=
+  edge_roundtrip' comp sub r2010 e h
+
+/-- counter-clockwise arcs and ellipses, line edges, and spline edges without fit points are bit-exact -/
+theorem hatch_edge_exact (comp : Nat → Nat) (sub : P2 → P2 → P2) (e : Edge)
+    (h : match e with
+      | .line .. => True
+      | .arc _ _ _ _ ccw => ccw = true
+      | .ellipse _ _ _ _ _ ccw => ccw = true
+      | .spline _ rat _ _ _ weights fit _ _ => fit = [] ∧ rat = boolInt (weights != [])) :
+    canonEdge comp sub e = e := by
+  cases e with
+  | line s e => rfl
+  | arc c r sa ea ccw => simp only at h; subst h; rfl
+  | ellipse c maj ratio sa ea ccw => simp only at h; subst h; rfl
+  | spline deg rat per knots ctrl weights fit st et =>
+    simp only at h; obtain ⟨h1, h2⟩ := h; subst h1; subst h2; rfl
+
+/-- the source boundary object handles (97 n, 330 …) at the end of a path are popped off whatever is in front -/
+theorem hatch_source_objects_roundtrip (body : List Tag) (hs : List (List Nat)) :
+    popSrc (body ++ exportSrc hs) = (body, hs) :=
+  popSrc_export body hs
+
+/-- one boundary path (polyline path with/without bulges, closed flag; edge path) -/
+theorem hatch_path_roundtrip (comp : Nat → Nat) (sub : P2 → P2 → P2) (r2010 hatch : Bool) (p : BPath)
+    (h : pathOK p = true) :
+    loadPath comp (exportPath comp sub r2010 hatch p) = some (canonPath comp sub hatch p) :=
+  path_roundtrip' comp sub r2010 hatch p h
+
+/-- the whole entity level: count tag 91, the run of tags with a group code of `PATH_CODES` (regenerated from
+    entities/polygon.py on every run: the proof checks that every group code a path writer uses is in it), split into
+    paths at the 92 tags; any number of paths; the attribute tags in front and behind stay for `fast_load_dxfattribs` -/
+theorem hatch_paths_roundtrip (comp : Nat → Nat) (sub : P2 → P2 → P2) (r2010 hatch : Bool) (old ps : List BPath)
+    (pre post : List Tag) (n : Int)
+    (hpre : ∀ t ∈ pre, t.code ≠ 91)
+    (hpost : ∀ t, post.head? = some t → Gen.PayloadTables.pathCodes.contains t.code = false)
+    (h : ∀ p ∈ ps, pathOK p = true) :
+    loadHatchPaths Gen.PayloadTables.pathCodes comp old (pre ++ tagI 91 n :: (exportPaths comp sub r2010 hatch ps ++ post)) =
+      some (if ps = [] then old else ps.map (canonPath comp sub hatch), pre ++ post) :=
+  hatch_paths_roundtrip' _ comp sub r2010 hatch old ps pre post n
+    (by
+      have : Payload.pathCodes.all (fun c => Gen.PayloadTables.pathCodes.contains c) = true := by decide
+      intro c hc
+      exact List.all_eq_true.mp this c (by simpa using hc))
+    hpre hpost h
+
+/-- what follows the paths in the files ezdxf writes (hatch_style 75 for HATCH, pattern_type 76 for MPOLYGON) ends the
+    run of path tags -/
+theorem hatch_paths_terminated :
+    Gen.PayloadTables.pathCodes.contains 75 = false ∧ Gen.PayloadTables.pathCodes.contains 76 = false := by decide
+
+/-- every tag a path writes carries a group code of `PATH_CODES` (otherwise `load_paths` would stop early) -/
+theorem hatch_path_codes_closed (comp : Nat → Nat) (sub : P2 → P2 → P2) (r2010 hatch : Bool) (ps : List BPath) :
+    ∀ t ∈ exportPaths comp sub r2010 hatch ps, pathCodes.contains t.code = true :=
+  exportPaths_codes comp sub r2010 hatch ps
+
+/-- polyline paths are bit-exact when a bulge is present or all bulges are +0.0 (HATCH keeps the handles) -/
+theorem hatch_polyline_exact (comp : Nat → Nat) (sub : P2 → P2 → P2) (flags closed : Int)
+    (verts : List (Nat × Nat × Nat)) (src : List (List Nat))
+    (h : hasBulge verts = true ∨ ∀ v ∈ verts, v.2.2 = 0) :
+    canonPath comp sub true (.poly flags closed verts src) = .poly flags closed verts src := by
+  rcases h with h | h
+  · simp [canonPath, h]
+  · have : verts.map (fun v => (v.1, v.2.1, 0)) = verts := by
+      conv => rhs; rw [← List.map_id verts]
+      apply List.map_congr_left; intro v hv
+      have := h v hv
+      obtain ⟨x, y, b⟩ := v; simp only at this; subst this; rfl
+    simp [canonPath, this]
+
+/-- the second cycle: what came back from the first save/load is written and read back unchanged, provided the double
+    operation `360.0 - x` satisfies c(c(c(c x))) = c(c x) (true for IEEE doubles on [0, 360]: after one round the value
+    and its complement are both exact; checked on the real code by the oracle O5) -/
+theorem hatch_paths_second_cycle (comp : Nat → Nat) (sub : P2 → P2 → P2) (r2010 hatch : Bool) (ps : List BPath)
+    (hcomp : ∀ x, comp (comp (comp (comp x))) = comp (comp x)) (h : ∀ p ∈ ps, pathOK p = true) :
+    loadPaths comp (exportPaths comp sub r2010 hatch (ps.map (canonPath comp sub hatch))) =
+      some (ps.map (canonPath comp sub hatch)) := by
+  have := paths_roundtrip' comp sub r2010 hatch (ps.map (canonPath comp sub hatch))
+    (by intro p hp; obtain ⟨q, hq, rfl⟩ := List.mem_map.mp hp; rw [pathOK_canon]; exact h q hq)
+  rw [this, List.map_map]
+  congr 1
+  apply List.map_congr_left
+  intro p _
+  exact canonPath_idem comp sub hatch hcomp p
+
+/-- HATCH seed points; the loader's `del` removes one tag more than it collected (nothing follows in files
+    written by ezdxf: gradient data is cut off before) -/
+theorem hatch_seeds_roundtrip (old seeds : List P2) (pre post : List Tag)
+    (hpre : ∀ t ∈ pre, t.code ≠ 98)
+    (hpost : ∀ t, post.head? = some t → t.code ≠ 98 ∧ t.code ≠ 10 ∧ t.code ≠ 20) :
+    loadSeeds old (pre ++ exportSeeds seeds ++ post) = (seeds, pre ++ post.drop 1) :=
+  seeds_roundtrip' old seeds pre post hpre hpost
+
+/-- HATCH pattern definition lines with any number of dash items -/
+theorem hatch_pattern_roundtrip (ls : List PLine) : loadPattern (exportPattern ls) = ls := pattern_roundtrip' ls
+
+/-- … and at the entity level: count tag 78, the run of `PATTERN_DEFINITION_LINE_CODES` tags (regenerated) -/
+theorem hatch_pattern_entity_roundtrip (ls : List PLine) (pre post : List Tag) (n : Int)
+    (hpre : ∀ t ∈ pre, t.code ≠ 78)
+    (hpost : ∀ t, post.head? = some t → Gen.PayloadTables.patternCodes.contains t.code = false) :
+    loadHatchPattern Gen.PayloadTables.patternCodes (pre ++ tagI 78 n :: (exportPattern ls ++ post)) = (some ls, pre ++ post) :=
+  hatch_pattern_roundtrip' _ ls pre post n
+    (by
+      have : plineCodes.all (fun c => Gen.PayloadTables.patternCodes.contains c) = true := by decide
+      intro c hc
+      exact List.all_eq_true.mp this c (by simpa using hc))
+    hpre hpost
+
+/-- **the whole AcDbHatch subclass** as `Hatch.export_entity` writes it and `DXFPolygon.load_dxf_attribs` takes it apart:
+    boundary paths, gradient tags, pattern lines and seed points are separated in the order `load_paths`, `load_gradient`,
+    `load_pattern`, `load_seeds`, and exactly the four runs of attribute tags remain for `fast_load_dxfattribs` (any
+    attribute tags that use none of the structure codes 91, 450, 78, 98; `a2` starts outside PATH_CODES = hatch_style 75,
+    `a4` outside the pattern line codes = pixel_size 47; both code sets regenerated from the source).  At least one path
+    (with none the loader keeps what the entity had) and a pattern with at least one line (a pattern object without lines
+    writes no 78 tag and comes back as "no pattern"). -/
+theorem hatch_entity_payload_roundtrip (comp : Nat → Nat) (sub : P2 → P2 → P2) (r2010 : Bool)
+    (a1 a2 a3 a4 g : List Tag) (n : Int) (paths : List BPath) (pat : Option (Int × List PLine)) (seeds : List P2)
+    (h1 : ∀ t ∈ a1, hatchFree t = true) (h2 : ∀ t ∈ a2, hatchFree t = true) (h3 : ∀ t ∈ a3, hatchFree t = true)
+    (h4 : ∀ t ∈ a4, hatchFree t = true)
+    (h2h : ∃ t r, a2 = t :: r ∧ Gen.PayloadTables.pathCodes.contains t.code = false)
+    (h4h : ∃ t r, a4 = t :: r ∧ Gen.PayloadTables.patternCodes.contains t.code = false)
+    (hg : ∀ t, g.head? = some t → t.code = 450)
+    (hp : ∀ p ∈ paths, pathOK p = true) (hne : paths ≠ [])
+    (hls : ∀ m ls, pat = some (m, ls) → ls ≠ []) :
+    loadHatchAll Gen.PayloadTables.pathCodes Gen.PayloadTables.patternCodes comp
+        (exportHatchAll comp sub r2010 a1 a2 a3 a4 g n paths pat seeds) =
+      some (⟨paths.map (canonPath comp sub true), g, pat.map (·.2), seeds⟩, a1 ++ (a2 ++ (patAttrs a3 pat ++ a4))) :=
+  hatch_all_roundtrip' _ _ comp sub r2010 a1 a2 a3 a4 g n paths pat seeds
+    (by
+      have : Payload.pathCodes.all (fun c => Gen.PayloadTables.pathCodes.contains c) = true := by decide
+      intro c hc
+      exact List.all_eq_true.mp this c (by simpa using hc))
+    (by
+      have : plineCodes.all (fun c => Gen.PayloadTables.patternCodes.contains c) = true := by decide
+      intro c hc
+      exact List.all_eq_true.mp this c (by simpa using hc))
+    h1 h2 h3 h4 h2h h4h hg hp hne hls
+
+#guard loadHatchAll Gen.PayloadTables.pathCodes Gen.PayloadTables.patternCodes id
+    (exportHatchAll id (fun a _ => a) true [⟨10, .pt 0 0 0⟩, ⟨2, .str [83]⟩] [⟨75, .int 1⟩, ⟨76, .int 1⟩] [⟨52, .dbl 0⟩] [⟨47, .dbl 1⟩]
+      [⟨450, .int 1⟩, ⟨451, .int 0⟩] 1 [.poly 3 1 [(1, 2, 0), (3, 4, 0)] [[65]]] (some (1, [⟨5, (1, 2), (3, 4), [7, 8]⟩])) [(9, 9)])
+  == some (⟨[.poly 3 1 [(1, 2, 0), (3, 4, 0)] [[65]]], [⟨450, .int 1⟩, ⟨451, .int 0⟩], some [⟨5, (1, 2), (3, 4), [7, 8]⟩], [(9, 9)]⟩,
+           [⟨10, .pt 0 0 0⟩, ⟨2, .str [83]⟩, ⟨75, .int 1⟩, ⟨76, .int 1⟩, ⟨52, .dbl 0⟩, ⟨47, .dbl 1⟩])
+
+/-- HATCH gradient data: kind, rotation (degrees in memory, radians in the file: `toRad` / `toDeg` are the double
+    functions `math.radians` / `math.degrees`; the rotation comes back as `toDeg (toRad r)`, which is `r` itself for 88 % of
+    the doubles in [0, 360) and one ulp off e.g. for 30.0), centered, tint, name, both colors, and both OPTIONAL ACI values in
+    every combination (after fix C01-F12; before, the ACI value of the second color was given to the first color when the
+    first had none) -/
+theorem gradient_roundtrip (toRad toDeg : Nat → Nat) (g : Grad) (hn : 2 ≤ g.ncolors)
+    (h1 : rgbMask g.c1 = g.c1) (h2 : rgbMask g.c2 = g.c2) :
+    loadGrad toDeg (exportGrad toRad g) = some { g with rot := toDeg (toRad g.rot) } :=
+  grad_roundtrip' toRad toDeg g hn h1 h2
+
+-- the combination that failed before the fix: no ACI value for the first color, one for the second
+#guard loadGrad id (exportGrad id ⟨1, 7, 0, 0, 0, linearName, 2, none, 255, some 5, 65280⟩)
+  == some ⟨1, 7, 0, 0, 0, linearName, 2, none, 255, some 5, 65280⟩
+example : rgbMask 16777215 = 16777215 ∧ rgbMask 0 = 0 := by decide
+
+/-- T-ast fingerprint: the group codes of the payload writers and loaders in source order (first argument of every
+    `write_tag2` / `write_vertex` call, every constant compared with `code`), extracted from the current source on every
+    run.  A changed code, a reordered, added or removed statement in these functions breaks this theorem; the model
+    functions of Model/Payload.lean are written against exactly these lists. -/
+theorem payload_source_fingerprint :
+    Gen.PayloadTables.spline_export_entity = [100, 72, 73, 74] ∧
+    Gen.PayloadTables.spline_export_data = [40, 41, 10, 11] ∧
+    Gen.PayloadTables.spline_load_data = [10, 11, 40, 41, 12, 13] ∧
+    Gen.PayloadTables.mesh_export_data = [92, 10, 95, 140] ∧
+    Gen.PayloadTables.mesh_export_override = [90] ∧
+    Gen.PayloadTables.mesh_facelist_export = [93, 90, 90] ∧
+    Gen.PayloadTables.mesh_edgearray_export = [94, 90] ∧
+    Gen.PayloadTables.mesh_load_data = [92, 93, 94, 95] ∧
+    Gen.PayloadTables.mtext_export_content = [250, 3, 1] ∧
+    Gen.PayloadTables.mtext_load_content = [1, 3] ∧
+    Gen.PayloadTables.dict_load = [350, 360, 3] ∧
+    (Gen.PayloadTables.dictKeyCode = 3 ∧ Gen.PayloadTables.dictValueCode = 350 ∧ Gen.PayloadTables.dictSearchCodes = [350, 360]) ∧
+    Gen.PayloadTables.paths_export = [91] ∧
+    Gen.PayloadTables.src_objects_export = [97, 330] ∧
+    Gen.PayloadTables.src_objects_pop = [97, 330, 330] ∧
+    Gen.PayloadTables.polyline_path_export = [92, 72, 73, 73, 72, 93, 10, 42] ∧
+    Gen.PayloadTables.polyline_path_load = [10, 42, 72, 73, 92, 93] ∧
+    Gen.PayloadTables.edge_path_export = [92, 93] ∧
+    Gen.PayloadTables.line_edge_export = [72, 10, 20, 11, 21] ∧
+    Gen.PayloadTables.line_edge_load = [10, 11] ∧
+    Gen.PayloadTables.arc_edge_export = [72, 10, 20, 40, 50, 51, 73] ∧
+    Gen.PayloadTables.arc_edge_load = [10, 40, 50, 51, 73] ∧
+    Gen.PayloadTables.ellipse_edge_export = [72, 10, 20, 11, 21, 40, 50, 51, 73] ∧
+    Gen.PayloadTables.ellipse_edge_load = [10, 11, 40, 50, 51, 73] ∧
+    Gen.PayloadTables.spline_edge_export = [72, 94, 73, 74, 95, 96, 40, 10, 20, 42, 10, 20, 97, 11, 21, 97, 12, 22, 13, 23] ∧
+    Gen.PayloadTables.spline_edge_load = [94, 73, 74, 40, 42, 10, 11, 12, 13] ∧
+    Gen.PayloadTables.hatch_load_paths = 91 :: Gen.PayloadTables.pathCodes ∧
+    Gen.PayloadTables.hatch_load_pattern = 78 :: Gen.PayloadTables.patternCodes ∧
+    Gen.PayloadTables.hatch_load_seeds = [98, 10, 20, 98, 10] ∧
+    Gen.PayloadTables.hatch_export_seeds = [98, 10] ∧
+    Gen.PayloadTables.pattern_line_export = [53, 43, 44, 45, 46, 79, 49] ∧
+    Gen.PayloadTables.pattern_line_load = [49] ∧
+    Gen.PayloadTables.pattern_export = [78] ∧
+    Gen.PayloadTables.gradient_export = [450, 451, 460, 461, 452, 462, 453, 463, 63, 421, 463, 63, 421, 470] ∧
+    Gen.PayloadTables.gradient_load = [450, 460, 461, 452, 462, 470, 453, 63, 421] ∧
+    Gen.PayloadTables.mline_vertex_export = [11, 12, 13, 74, 41, 75, 42] ∧
+    Gen.PayloadTables.mline_vertex_load = [11, 12, 13, 74, 41, 75, 42] ∧
+    Gen.PayloadTables.image_export_boundary = [14] ∧
+    Gen.PayloadTables.image_load_boundary = [14] ∧
+    Gen.PayloadTables.leader_export_vertices = [76, 10] ∧
+    Gen.PayloadTables.leader_load_vertices = [10, 76] ∧
+    Gen.PayloadTables.group_export = [340] ∧
+    Gen.PayloadTables.group_load = [340] := by
+  repeat' apply And.intro
+  all_goals decide
+
+example : pathOK (.poly 3 1 [(1, 2, 0)] []) = true ∧ pathOK (.edges 1 [.line (1, 2) (3, 4), .spline 3 0 0 [1] [(1, 1)] [] [] none none] [[49]]) = true := by
+  decide
+#guard loadHatchPaths Gen.PayloadTables.pathCodes id [] ([⟨70, .int 1⟩] ++ tagI 91 2 :: (exportPaths id (fun a _ => a) true true
+    [.poly 3 1 [(1, 2, 5), (3, 4, 0)] [[49, 70]], .edges 1 [.arc (1, 2) 3 4 5 false, .line (1, 2) (3, 4)] []] ++ [⟨75, .int 1⟩]))
+  == some ([.poly 3 1 [(1, 2, 5), (3, 4, 0)] [[49, 70]], .edges 1 [.arc (1, 2) 3 4 5 false, .line (1, 2) (3, 4)] []],
+           [⟨70, .int 1⟩, ⟨75, .int 1⟩])
+-- MPOLYGON does not write the source boundary objects of a polyline path: they are lost by design of the format
+#guard loadPath id (exportPath id (fun a _ => a) true false (.poly 2 1 [(1, 2, 0)] [[49]])) == some (.poly 2 1 [(1, 2, 0)] [])
+
+/-- LEADER: the vertices (10) come back in order, the count tag 76 is dropped, the other tags go to the attribute loader -/
+theorem leader_vertices_roundtrip (pre post : List Tag) (vs : List P3)
+    (h1 : ∀ t ∈ pre, leaderFree t = true) (h2 : ∀ t ∈ post, leaderFree t = true) :
+    loadLeader (pre ++ exportLeader vs ++ post) = (vs, pre ++ post) :=
+  leader_roundtrip' pre post vs h1 h2
+
+/-- GROUP: the member handles (340) come back in order (members are distinct: the loader keeps them as dict keys) -/
+theorem group_handles_roundtrip (pre post : List Tag) (hs : List (List Nat)) (hn : hs.Nodup)
+    (h1 : ∀ t ∈ pre, t.code ≠ 340) (h2 : ∀ t ∈ post, t.code ≠ 340) :
+    loadGroup (pre ++ exportGroup hs ++ post) = hs :=
+  group_roundtrip' pre post hs hn h1 h2
+
+/-- IMAGE / WIPEOUT: the boundary path vertices (14) are popped out of the subclass wherever they stand -/
+theorem image_boundary_roundtrip (pre post : List Tag) (path : List P2)
+    (h1 : ∀ t ∈ pre, t.code ≠ 14) (h2 : ∀ t ∈ post, t.code ≠ 14) :
+    loadImageBoundary (pre ++ exportImageBoundary path ++ post) = (path, pre ++ post) :=
+  image_roundtrip' pre post path h1 h2
+
+/-- MLINE: any number of vertices, each with location, direction, miter direction and count-prefixed line / fill
+    parameter lists (74 n 41… 75 m 42…) of any lengths, split at the (11, location) tags -/
+theorem mline_vertices_roundtrip (pre : List Tag) (vs : List MVertex) (hpre : ∀ t ∈ pre, t.code ≠ 11)
+    (h : ∀ v ∈ vs, v.lps.length = v.fps.length) : loadMLine (pre ++ exportMLine vs) = vs :=
+  mline_roundtrip' pre vs hpre h
+
+#guard loadMLine ([⟨70, .int 1⟩] ++ exportMLine [⟨(1, 2, 3), (4, 5, 6), (7, 8, 9), [[1, 2], []], [[], [3]]⟩, ⟨(0, 0, 0), (1, 1, 1), (2, 2, 2), [], []⟩])
+  == [⟨(1, 2, 3), (4, 5, 6), (7, 8, 9), [[1, 2], []], [[], [3]]⟩, ⟨(0, 0, 0), (1, 1, 1), (2, 2, 2), [], []⟩]
+-- `export_dxf` zips line and fill parameters: with different counts the surplus is not written (hypothesis necessary)
+#guard loadMLine (exportMLine [⟨(1, 2, 3), (4, 5, 6), (7, 8, 9), [[1], [2]], [[3]]⟩]) == [⟨(1, 2, 3), (4, 5, 6), (7, 8, 9), [[1]], [[3]]⟩]
+#guard loadGroup (exportGroup [[65], [66], [65]]) == [[65], [66]]
+
+/-! ### the side conditions of the payload theorems hold for the registered classes
+
+The payload theorems speak about arbitrary attribute tags around the payload that do not use the payload's group codes.
+For the classes registered in the current source (Gen/Schemas.lean: declared attributes and the traced export plans of
+every DXF version) these side conditions are checked here: no attribute that `export_entity` hands to
+`export_dxf_attribs` inside the payload's subclass carries one of the payload's group codes. -/
+
+/-- group codes of the attributes exported inside the subclass with marker `m`, over all traced plans of the class -/
+def attrCodesIn (c : ClassSchema) (m : Name) : List Int :=
+  c.plans.flatMap (fun p => p.segs.flatMap (fun s =>
+    if s.marker == some m then (attrNamesOf s.evs).filterMap (fun n => (c.attrs.find n).map (·.code)) else []))
+
+theorem payload_side_conditions :
+    ((attrCodesIn Gen.Schemas.c_SPLINE (enc "AcDbSpline")).all (fun c => splineFree ⟨c, .int 0⟩) = true ∧
+      (attrCodesIn Gen.Schemas.c_SPLINE (enc "AcDbSpline")).length > 0) ∧
+    ((attrCodesIn Gen.Schemas.c_MESH (enc "AcDbSubDMesh")).all (fun c => meshFree ⟨c, .int 0⟩) = true ∧
+      (attrCodesIn Gen.Schemas.c_MESH (enc "AcDbSubDMesh")).length > 0) ∧
+    ((attrCodesIn Gen.Schemas.c_MTEXT (enc "AcDbMText")).all (fun c => mtextFree ⟨c, .int 0⟩) = true ∧
+      (attrCodesIn Gen.Schemas.c_MTEXT (enc "AcDbMText")).length > 0) ∧
+    ((attrCodesIn Gen.Schemas.c_DICTIONARY (enc "AcDbDictionary")).all (fun c => dictFree ⟨c, .int 0⟩) = true ∧
+      (attrCodesIn Gen.Schemas.c_DICTIONARY (enc "AcDbDictionary")).length > 0) ∧
+    ((attrCodesIn Gen.Schemas.c_LEADER (enc "AcDbLeader")).all (fun c => leaderFree ⟨c, .int 0⟩) = true ∧
+      (attrCodesIn Gen.Schemas.c_LEADER (enc "AcDbLeader")).length > 0) ∧
+    ((attrCodesIn Gen.Schemas.c_HATCH (enc "AcDbHatch")).all (fun c => c != 91 && c != 98 && c != 78) = true ∧
+      (attrCodesIn Gen.Schemas.c_HATCH (enc "AcDbHatch")).contains 75 = true) ∧
+    ((attrCodesIn Gen.Schemas.c_MPOLYGON (enc "AcDbMPolygon")).all (fun c => c != 91 && c != 78) = true ∧
+      (attrCodesIn Gen.Schemas.c_MPOLYGON (enc "AcDbMPolygon")).contains 76 = true) ∧
+    ((attrCodesIn Gen.Schemas.c_IMAGE (enc "AcDbRasterImage")).all (fun c => c != 14) = true ∧
+      (attrCodesIn Gen.Schemas.c_IMAGE (enc "AcDbRasterImage")).length > 0) ∧
+    ((attrCodesIn Gen.Schemas.c_MLINE (enc "AcDbMline")).all (fun c => c != 11) = true ∧
+      (attrCodesIn Gen.Schemas.c_MLINE (enc "AcDbMline")).length > 0) ∧
+    ((attrCodesIn Gen.Schemas.c_GROUP (enc "AcDbGroup")).all (fun c => c != 340) = true ∧
+      (attrCodesIn Gen.Schemas.c_GROUP (enc "AcDbGroup")).length > 0) ∧
+    -- what follows the pattern lines (pixel_size 47) and the seed points ends the respective run
+    (Gen.PayloadTables.patternCodes.contains 47 = false ∧ Gen.PayloadTables.patternCodes.contains 98 = false) := by
+  decide +kernel
+
+/-- names ↔ handles through a document table (VIEWPORT frozen layers; the file holds 331 handles, the entity layer names):
+    with pairwise different handles in the table every name that the table knows (by its key: case-insensitive) comes back
+    as the table's spelling of it, in order; names the table does not know are not written -/
+theorem names_handles_roundtrip (keyOf : List Nat → List Nat) (tbl : List ResEntry)
+    (hd : tbl.Pairwise (fun a b => a.handle ≠ b.handle)) (names : List (List Nat)) :
+    handlesToNames tbl (namesToHandles keyOf tbl names) =
+      names.filterMap (fun n => (tbl.find? (fun e => e.key == keyOf n)).map (·.name)) :=
+  names_handles_roundtrip' keyOf tbl hd names
+
+/-- … and the 331 tags are taken out of the subclass wherever they stand -/
+theorem frozen_layers_tags_roundtrip (keyOf : List Nat → List Nat) (tbl : List ResEntry) (pre post : List Tag)
+    (names : List (List Nat)) (h1 : ∀ t ∈ pre, t.code ≠ 331) (h2 : ∀ t ∈ post, t.code ≠ 331) :
+    loadFrozen (pre ++ exportFrozen keyOf tbl names ++ post) = (namesToHandles keyOf tbl names, pre ++ post) :=
+  frozen_roundtrip' keyOf tbl pre post names h1 h2
+
+#guard handlesToNames [⟨[97], [65], [49]⟩, ⟨[98], [66], [50]⟩] (namesToHandles (fun n => n.map (fun c => if 65 ≤ c ∧ c ≤ 90 then c + 32 else c))
+    [⟨[97], [65], [49]⟩, ⟨[98], [66], [50]⟩] [[98], [88], [65]]) == [[66], [65]]
+
+/-! ## 6. the entity level envelope: handle, owner, application data, extension dictionary, reactors, XDATA
+
+`Model/Storage.lean` (property C02, imported read-only) models `ExtendedTags._setup`, `DXFEntity.load_tags`
+(`setup_app_data`, `XData`), `DXFNamespace.__init__` (handle / owner scan) and `DXFEntity.export_dxf`
+(`export_base_class` in the statement order regenerated from the source, subclasses, embedded objects, `export_xdata`).
+C02 proves file → memory → file; C01 needs memory → file → memory. -/
+
+/-- **envelope_roundtrip**: an entity that holds a handle, an owner, any number of application data groups (closed, under
+    their own key), a live extension dictionary or none, a non-empty reactor set or none, any subclasses (each starting with
+    its (100, …) marker), embedded objects and XDATA lists of valid group codes under distinct application ids is written
+    and read back to the identical envelope: same type, handle, owner, application data, extension dictionary handle,
+    reactors, subclass tags (tag for tag, in order), embedded objects and XDATA -/
+theorem envelope_roundtrip (alive : XTags.V → Bool) (e : Storage.Ent) (ok : Envelope.EnvOK alive e) :
+    ∃ t, Storage.exportEnt alive e = .ok t ∧ Storage.load t = .ok e :=
+  Envelope.envelope_roundtrip' ok
+
+/-- an EMPTY reactor set (every handle discarded, e.g. after the group that registered itself was destroyed) writes no
+    {ACAD_REACTORS group and comes back as "no reactors": the two are the same observable state (the oracle's snapshot
+    treats an empty Reactors / AppData / XData container as absent) -/
+theorem envelope_empty_reactors (alive : XTags.V → Bool) (e : Storage.Ent) (he : e.reactors = some [])
+    (ok : Envelope.EnvOK alive { e with reactors := none }) :
+    ∃ t, Storage.exportEnt alive e = .ok t ∧ Storage.load t = .ok { e with reactors := none } := by
+  obtain ⟨t, h1, h2⟩ := Envelope.envelope_roundtrip' ok
+  refine ⟨t, ?_, h2⟩
+  rw [← h1]
+  cases e with
+  | mk typ handle owner appdata xdict reactors subs embedded xdata =>
+    simp only at he
+    subst he
+    rfl
+
+/-- the base class is written in the order handle, application data, extension dictionary, reactors, owner, then the
+    subclasses, embedded objects and XDATA (the statement order of `export_dxf` / `export_base_class` extracted from the
+    current source into Gen/StorageTables.lean) -/
+theorem envelope_export_order (alive : XTags.V → Bool) (e : Storage.Ent) (ok : Envelope.EnvOK alive e)
+    (h o : XTags.V) (hh : e.handle = some h) (ho : e.owner = some o) :
+    Storage.exportEnt alive e =
+      .ok (⟨0, e.typ⟩ :: ((Envelope.itemsOf e h o).flatMap Storage.Item.tags ++ Envelope.restOf e)) :=
+  Envelope.export_eq ok h o hh ho
+
+/-- a complete envelope (non-vacuity of `EnvOK` and of the conclusion, checked by evaluation below) -/
+def demoEnt : Storage.Ent :=
+  { typ := .str [76], handle := some (.str [49, 70]), owner := some (.str [49, 69]),
+    appdata := [(.str [123, 77], [⟨102, .str [123, 77]⟩, ⟨40, .str [49]⟩, Storage.closeBrace])],
+    xdict := some (.str [50, 65]), reactors := some [.str [65, 65], .str [66, 66]],
+    subs := [[⟨100, .str [88]⟩, ⟨10, .str [49]⟩], [⟨100, .str [89]⟩]],
+    embedded := [],
+    xdata := [(.str [65], [⟨1001, .str [65]⟩, ⟨1000, .str [115]⟩]), (.str [66], [⟨1001, .str [66]⟩, ⟨1070, .str [55]⟩])] }
+
+#guard (match Storage.exportEnt (fun _ => true) demoEnt with
+  | .ok t => (match Storage.load t with | .ok e' => e' == demoEnt | .error _ => false)
+  | .error _ => false)
+
+example : Envelope.EnvOK (fun _ => true) demoEnt where
+  handle := rfl
+  owner := rfl
+  xdict := fun _ _ => rfl
+  reactors := by
+    intro rs h
+    simp only [demoEnt, Option.some.injEq] at h
+    subst h
+    refine ⟨by simp, ?_, by decide⟩
+    intro v hv
+    simp only [List.mem_cons, List.not_mem_nil, or_false] at hv
+    rcases hv with rfl | rfl <;> decide
+  appdata := by
+    intro p hp
+    simp only [demoEnt, List.mem_cons, List.not_mem_nil, or_false] at hp
+    subst hp
+    refine ⟨⟨⟨102, .str [123, 77]⟩, [⟨40, .str [49]⟩], Storage.closeBrace, rfl, by decide, by decide, ?_⟩, by decide, by decide,
+      by decide, by decide⟩
+    intro t ht
+    simp only [List.mem_cons, List.not_mem_nil, or_false] at ht
+    subst ht; decide
+  appkeys := by simp [demoEnt]
+  subs := by
+    intro g hg
+    simp only [demoEnt, List.mem_cons, List.not_mem_nil, or_false] at hg
+    rcases hg with rfl | rfl
+    · exact ⟨_, _, rfl, by decide, by intro x hx; simp at hx; subst hx; decide⟩
+    · exact ⟨_, _, rfl, by decide, by intro x hx; simp at hx⟩
+  embedded := by intro g hg; simp [demoEnt] at hg
+  xdata := by
+    intro p hp
+    simp only [demoEnt, List.mem_cons, List.not_mem_nil, or_false] at hp
+    rcases hp with rfl | rfl
+    · exact ⟨⟨_, _, rfl, by decide, by intro x hx; simp at hx; subst hx; decide⟩, by decide, by decide⟩
+    · exact ⟨⟨_, _, rfl, by decide, by intro x hx; simp at hx; subst hx; decide⟩, by decide, by decide⟩
+  xkeys := by simp [demoEnt]
+
+/-- **entity_roundtrip**: attributes AND envelope of one entity.  `S`, `p` are the attribute schema and the traced plan of a
+    class (`wfPlan`, kernel-checked for every registered class by `schemas_wf`), `ns` the namespace, `rv` the payload
+    values; `env` is the envelope of the same entity, whose subclasses are the exported attribute subclasses `b :: rest`
+    without the base class, brought to the storage level by an encoder `enc` (the text form of a tag) with a decoder `dec`.
+    Then writing and reading the entity returns the same envelope, the subclass tags decode to the tags that were written,
+    and every exported attribute is observed as before (up to the sign of zero, see `attr_roundtrip`). -/
+theorem entity_roundtrip (tbl : List (Int × Name)) (S : Schema) (p : Plan) (hwf : wfPlan tbl S p = true)
+    (force : Bool) (ns : NS) (rv : Nat → Nat → Val) (b : List LTag) (rest : List (List LTag))
+    (hexp : exportEntity S p force ns rv = some (b :: rest))
+    (hns : ∀ a ∈ S, ∀ v, ns.get a.name = some v → valOK a v = true)
+    (alive : XTags.V → Bool) (env : Storage.Ent) (ok : Envelope.EnvOK alive env)
+    (enc : Tag → XTags.Tag) (dec : XTags.Tag → Tag) (hdec : ∀ t, dec (enc t) = t)
+    (hsubs : env.subs = rest.map (fun sub => (untag sub).map enc)) :
+    ∃ t env', Storage.exportEnt alive env = .ok t ∧ Storage.load t = .ok env' ∧ env' = env ∧
+      env'.subs.map (List.map dec) = rest.map untag ∧
+      ∀ n a, n ∈ expNames S p → S.find n = some a →
+        simO (observe a (loadEntity tbl p (b :: rest))) (observe a ns) := by
+  obtain ⟨t, h1, h2⟩ := Envelope.envelope_roundtrip' ok
+  refine ⟨t, env, h1, h2, rfl, ?_, ?_⟩
+  · rw [hsubs, List.map_map]
+    apply List.map_congr_left
+    intro sub _
+    simp only [Function.comp, List.map_map]
+    conv => rhs; rw [← List.map_id (untag sub)]
+    apply List.map_congr_left
+    intro x _
+    simp [hdec]
+  · intro n a hn ha
+    exact attr_roundtrip tbl S p hwf force ns rv (b :: rest) hexp hns n a hn ha
+
+/-! ## 7. the whole document: order, handles, ownership (skeleton)
+
+`Model/Doc.lean` (properties C04 / C05, imported read-only) is the document state machine: entity records (handle,
+owner = BLOCK_RECORD handle, alive, block reference, paperspace flag), the ordered entity space of every layout and
+block, block and layout tables; `writeFile` is what `Drawing.write` exports, `reload` is `write()` + `ezdxf.read()`.
+C05 proves `spec_reload` (every layout shows what it showed); C01 composes it to the skeleton statement of the
+property: same layouts, blocks, order, handles, owners, and a second save writes the same file. -/
+
+open EzdxfVerif.Doc in
+/-- **doc_roundtrip_skeleton**: in a reachable state (`OwnerInv`: every listed live entity is owned by the layout that
+    lists it; `DbInv`: live entities are in the entity database) `write()` + `read()` succeeds and
+    (1) every layout and block lists the same entity handles in the same order,
+    (2) the block and layout tables are identical (names, BLOCK_RECORD handles, tab order),
+    (3) every live entity that is linked to a layout or block comes back as the identical record: same handle, same
+        owner, same block reference, same paperspace flag,
+    (4) what a second `write()` exports (BLOCKS and ENTITIES sections, handle for handle) is what the first one exported:
+        the second cycle changes nothing but `$HANDSEED` -/
+theorem doc_roundtrip_skeleton (s : Doc.State) (seed : Nat) (ho : Doc.OwnerInv s) (hd : Doc.DbInv s)
+    (hseed : s.next ≤ seed) :
+    (Doc.step s (.reload seed)).2 = .ok ∧
+    (∀ k, Doc.content (Doc.step s (.reload seed)).1 k = Doc.content s k) ∧
+    ((Doc.step s (.reload seed)).1.blocks = s.blocks ∧ (Doc.step s (.reload seed)).1.layouts = s.layouts) ∧
+    (∀ h x, Doc.findEnt s h = some x → x.alive = true → x.owner.isSome = true →
+      Doc.findEnt (Doc.step s (.reload seed)).1 h = some x) ∧
+    ((Doc.writeFile (Doc.step s (.reload seed)).1).blocks = (Doc.writeFile s).blocks ∧
+     (Doc.writeFile (Doc.step s (.reload seed)).1).entities = (Doc.writeFile s).entities ∧
+     (Doc.writeFile (Doc.step s (.reload seed)).1).handseed = seed) := by
+  have hspec := fun k => Doc.spec_reload s seed ho hd hseed k
+  obtain ⟨hok, hE, _⟩ := Doc.reload_state s seed hseed
+  have hb : (Doc.step s (.reload seed)).1.blocks = s.blocks := by
+    simp only [Doc.step, hseed, decide_true, ↓reduceIte]
+  have hl : (Doc.step s (.reload seed)).1.layouts = s.layouts := by
+    simp only [Doc.step, hseed, decide_true, ↓reduceIte]
+  have hn : (Doc.step s (.reload seed)).1.next = seed := by
+    simp only [Doc.step, hseed, decide_true, ↓reduceIte]
+  have hlive : ∀ k, Doc.liveContent (Doc.step s (.reload seed)).1 k = Doc.liveContent s k := fun k => (hspec k).2
+  refine ⟨hok, fun k => (hspec k).2, ⟨hb, hl⟩, ?_, ?_, ?_, ?_⟩
+  · intro h x hf ha hown
+    have hmem : x ∈ s.ents := List.mem_of_find?_eq_some hf
+    have hdb := hd x hmem ha
+    simp only [Doc.findEnt] at hf ⊢
+    rw [hE]
+    unfold Doc.reloadEnts
+    rw [Doc.find_map_h _ _ (fun y => by split <;> rfl), hf]
+    simp [ha, hdb, hown]
+  · simp only [Doc.writeFile, Doc.blockBr, hb, hlive]; try rfl
+  · simp only [Doc.writeFile, Doc.blockBr, hb, hlive]; try rfl
+  · simp only [Doc.writeFile, hn]
+
+-- non-vacuity: a document with two entities in the modelspace and one in a block, after an unlink; write + read
+#guard
+  let s := Doc.run ⟨[], [(23, []), (27, [])], [(Doc.lower Doc.modelSpaceName, Doc.modelSpaceName, 23),
+      (Doc.lower Doc.paperSpaceName, Doc.paperSpaceName, 27)],
+      [⟨Doc.modelKey, Doc.ofString "Model", 23, 0⟩, ⟨Doc.upper (Doc.ofString "Layout1"), Doc.ofString "Layout1", 27, 1⟩],
+      [[48]], 47⟩ [.add 23 47 48, .add 23 48 49, .add 27 49 50, .unlink 23 47]
+  let s' := (Doc.step s (.reload 60)).1
+  (Doc.writeFile s').entities == [48, 49] && (Doc.writeFile s').entities == (Doc.writeFile s).entities &&
+    Doc.content s' 23 == [48] && (Doc.findEnt s' 48).map (·.owner) == some (some 23)
+
+/-! ## 8. attributes and payload of any size in one statement
+
+The traced plan of a class lists the payload tags of ONE instance as raw events that the entity's own loader removes before
+it calls `fast_load_dxfattribs`.  `stripPlan` removes these events: what remains is what the generic attribute machinery
+sees for a payload of ANY size, and the attribute theorems hold for it as well. -/
+
+def strippedOK (c : ClassSchema) : Bool :=
+  c.plans.all (fun p => wfPlan Gen.Schemas.recoverTable c.attrs (stripPlan p) || wfExceptions.contains (c.dxftype, p.ver))
+
+/-- **schemas_wf_stripped**: for every registered class × version the plan without the payload tags of the traced instance
+    meets `wfPlan` too (same exceptions as `schemas_wf`): the attribute round trip does not depend on the payload tags -/
+theorem schemas_wf_stripped : Gen.Schemas.classes.all strippedOK = true := by
+  decide +kernel
+
+/-- a class whose subclass number `k` (marker `m`) holds a payload: stripped plan well-formed, and no tag of that
+    subclass (attribute tags, raw tags that stay) uses a group code of the payload -/
+def payloadPlanOK (c : ClassSchema) (k : Nat) (m : Name) (free : Tag → Bool) (p : Plan) : Bool :=
+  wfPlan Gen.Schemas.recoverTable c.attrs (stripPlan p) &&
+  ((stripPlan p).segs[k]?.bind (·.marker) == some m) &&
+  (match segCodes c.attrs (stripPlan p) k with
+   | some cs => cs.all (fun x => free ⟨x, .int 0⟩)
+   | none => false)
+
+private theorem concSegs_get (ver : Nat) (force : Bool) (ns : NS) (rv : Nat → Nat → Val) :
+    ∀ (sss : List (List STag)) (k i : Nat),
+      (concSegs ver force ns rv k sss)[i]? = (sss[i]?).map (concSeg ver force ns (rv (k + i))) := by
+  intro sss
+  induction sss with
+  | nil => intro k i; simp [concSegs]
+  | cons ss rest ih =>
+    intro k i
+    cases i with
+    | zero => simp [concSegs]
+    | succ j =>
+      simp only [concSegs, List.getElem?_cons_succ]
+      rw [ih (k + 1) j]
+      have hk : k + 1 + j = k + (j + 1) := by omega
+      rw [hk]
+
+/-- every tag of the exported subclass `k` carries a group code of the symbolic subclass -/
+private theorem seg_tags_free (c : ClassSchema) (k : Nat) (m : Name) (free : Tag → Bool)
+    (hfree : ∀ t : Tag, free t = free ⟨t.code, .int 0⟩) (p : Plan) (hok : payloadPlanOK c k m free p = true)
+    (force : Bool) (ns : NS) (rv : Nat → Nat → Val) (subs : List (List LTag))
+    (hexp : exportEntity c.attrs (stripPlan p) force ns rv = some subs) (sub : List LTag) (hk : subs[k]? = some sub) :
+    wfPlan Gen.Schemas.recoverTable c.attrs (stripPlan p) = true ∧ ∀ t ∈ untag sub, free t = true := by
+  simp only [payloadPlanOK, Bool.and_eq_true] at hok
+  obtain ⟨⟨hwf, _⟩, hcodes⟩ := hok
+  refine ⟨hwf, ?_⟩
+  unfold exportEntity at hexp
+  cases hs : symSegs c.attrs (stripPlan p).segs with
+  | none => simp [hs] at hexp
+  | some sss =>
+    simp only [hs, Option.map_some, Option.some.injEq] at hexp
+    subst hexp
+    rw [concSegs_get] at hk
+    simp only [segCodes, hs] at hcodes
+    cases h3 : sss[k]? with
+    | none => simp [h3] at hk
+    | some ss =>
+      simp only [h3, Option.map_some, Option.some.injEq] at hk hcodes
+      subst hk
+      have hws : WS c.attrs ss := symSegs_WS hs ss (List.mem_of_getElem? h3)
+      intro t ht
+      obtain ⟨lt, hlt, rfl⟩ := List.mem_map.mp ht
+      obtain ⟨st, hst, hc⟩ := concSeg_mem_code hws lt hlt
+      have := List.all_eq_true.mp hcodes st.code (List.mem_map_of_mem hst)
+      rw [hfree, hc]; exact this
+
+/-- **spline_entity_roundtrip**: a whole SPLINE entity with ANY namespace and a payload of ANY size.  `subs` are the
+    subclasses that the attribute machinery writes for the stripped plan (base class, AcDbEntity, AcDbSpline with the count
+    tags), the entity writes the spline data behind the AcDbSpline subclass.  Then `load_spline_data` returns the payload and
+    hands exactly the attribute tags (minus null tangents) to `fast_load_dxfattribs`, and every exported attribute is observed
+    after loading as before (up to the sign of zero). -/
+theorem spline_entity_roundtrip (p : Plan) (hp : p ∈ Gen.Schemas.c_SPLINE.plans)
+    (force : Bool) (ns : NS) (rv : Nat → Nat → Val) (subs : List (List LTag))
+    (hexp : exportEntity Gen.Schemas.c_SPLINE.attrs (stripPlan p) force ns rv = some subs)
+    (hns : ∀ a ∈ Gen.Schemas.c_SPLINE.attrs, ∀ v, ns.get a.name = some v → valOK a v = true)
+    (sub2 : List LTag) (h2 : subs[2]? = some sub2) (d : Spline) :
+    loadSpline (untag sub2 ++ exportSplineData d) = (d, (untag sub2).filter splineKeeps) ∧
+    ∀ n a, n ∈ expNames Gen.Schemas.c_SPLINE.attrs (stripPlan p) → Gen.Schemas.c_SPLINE.attrs.find n = some a →
+      simO (observe a (loadEntity Gen.Schemas.recoverTable (stripPlan p) subs)) (observe a ns) := by
+  have hall : Gen.Schemas.c_SPLINE.plans.all (payloadPlanOK Gen.Schemas.c_SPLINE 2 (enc "AcDbSpline") splineFree) = true := by
+    decide +kernel
+  obtain ⟨hwf, hfree⟩ := seg_tags_free _ 2 _ splineFree (fun t => by simp [splineFree]) p (List.all_eq_true.mp hall p hp)
+    force ns rv subs hexp sub2 h2
+  exact ⟨spline_roundtrip_pre _ d hfree, fun n a hn ha => attr_roundtrip _ _ _ hwf force ns rv subs hexp hns n a hn ha⟩
+
+/-- **mesh_entity_roundtrip**: MESH with any namespace and any vertices / faces / edges / creases: the mesh data stands
+    somewhere inside the AcDbSubDMesh subclass in front of the override marker (90, 0) -/
+theorem mesh_entity_roundtrip (p : Plan) (hp : p ∈ Gen.Schemas.c_MESH.plans)
+    (force : Bool) (ns : NS) (rv : Nat → Nat → Val) (subs : List (List LTag))
+    (hexp : exportEntity Gen.Schemas.c_MESH.attrs (stripPlan p) force ns rv = some subs)
+    (hns : ∀ a ∈ Gen.Schemas.c_MESH.attrs, ∀ v, ns.get a.name = some v → valOK a v = true)
+    (sub2 : List LTag) (h2 : subs[2]? = some sub2) (pre post : List Tag) (hsplit : untag sub2 = pre ++ tagN 90 0 :: post)
+    (f32 : Nat → Nat) (m : Mesh) (hf : ∀ f ∈ m.faces, f ≠ []) (hc : ∀ x ∈ m.creases, f32 x = x) (h0 : f32 0 = 0) :
+    loadMesh f32 (pre ++ exportMesh m ++ post) =
+      some ({ m with creases := fixCreases (m.edges.length / 2) m.creases }, untag sub2) ∧
+    ∀ n a, n ∈ expNames Gen.Schemas.c_MESH.attrs (stripPlan p) → Gen.Schemas.c_MESH.attrs.find n = some a →
+      simO (observe a (loadEntity Gen.Schemas.recoverTable (stripPlan p) subs)) (observe a ns) := by
+  have hall : Gen.Schemas.c_MESH.plans.all (payloadPlanOK Gen.Schemas.c_MESH 2 (enc "AcDbSubDMesh") meshFree) = true := by
+    decide +kernel
+  obtain ⟨hwf, hfree⟩ := seg_tags_free _ 2 _ meshFree (fun t => by simp [meshFree]) p (List.all_eq_true.mp hall p hp)
+    force ns rv subs hexp sub2 h2
+  refine ⟨?_, fun n a hn ha => attr_roundtrip _ _ _ hwf force ns rv subs hexp hns n a hn ha⟩
+  rw [hsplit]
+  exact mesh_roundtrip' f32 pre post m (fun t ht => hfree t (by rw [hsplit]; simp [ht])) hf hc h0
+
+/-- **mtext_entity_roundtrip**: MTEXT with any namespace and text of any length; the chunks stand somewhere inside AcDbMText -/
+theorem mtext_entity_roundtrip (p : Plan) (hp : p ∈ Gen.Schemas.c_MTEXT.plans)
+    (force : Bool) (ns : NS) (rv : Nat → Nat → Val) (subs : List (List LTag))
+    (hexp : exportEntity Gen.Schemas.c_MTEXT.attrs (stripPlan p) force ns rv = some subs)
+    (hns : ∀ a ∈ Gen.Schemas.c_MTEXT.attrs, ∀ v, ns.get a.name = some v → valOK a v = true)
+    (sub2 : List LTag) (h2 : subs[2]? = some sub2) (pre post : List Tag) (hsplit : untag sub2 = pre ++ post) (text : Str) :
+    loadMText (pre ++ exportMText text ++ post) = (escapeLE text, untag sub2) ∧
+    ∀ n a, n ∈ expNames Gen.Schemas.c_MTEXT.attrs (stripPlan p) → Gen.Schemas.c_MTEXT.attrs.find n = some a →
+      simO (observe a (loadEntity Gen.Schemas.recoverTable (stripPlan p) subs)) (observe a ns) := by
+  have hall : Gen.Schemas.c_MTEXT.plans.all (payloadPlanOK Gen.Schemas.c_MTEXT 2 (enc "AcDbMText") mtextFree) = true := by
+    decide +kernel
+  obtain ⟨hwf, hfree⟩ := seg_tags_free _ 2 _ mtextFree (fun t => by simp [mtextFree]) p (List.all_eq_true.mp hall p hp)
+    force ns rv subs hexp sub2 h2
+  refine ⟨?_, fun n a hn ha => attr_roundtrip _ _ _ hwf force ns rv subs hexp hns n a hn ha⟩
+  rw [hsplit]
+  exact mtext_roundtrip' pre post text (fun t ht => hfree t (by rw [hsplit]; simp [ht]))
+    (fun t ht => hfree t (by rw [hsplit]; simp [ht]))
+
+/-- **leader_entity_roundtrip**: LEADER with any namespace and any number of vertices -/
+theorem leader_entity_roundtrip (p : Plan) (hp : p ∈ Gen.Schemas.c_LEADER.plans)
+    (force : Bool) (ns : NS) (rv : Nat → Nat → Val) (subs : List (List LTag))
+    (hexp : exportEntity Gen.Schemas.c_LEADER.attrs (stripPlan p) force ns rv = some subs)
+    (hns : ∀ a ∈ Gen.Schemas.c_LEADER.attrs, ∀ v, ns.get a.name = some v → valOK a v = true)
+    (sub2 : List LTag) (h2 : subs[2]? = some sub2) (pre post : List Tag) (hsplit : untag sub2 = pre ++ post) (vs : List P3) :
+    loadLeader (pre ++ exportLeader vs ++ post) = (vs, untag sub2) ∧
+    ∀ n a, n ∈ expNames Gen.Schemas.c_LEADER.attrs (stripPlan p) → Gen.Schemas.c_LEADER.attrs.find n = some a →
+      simO (observe a (loadEntity Gen.Schemas.recoverTable (stripPlan p) subs)) (observe a ns) := by
+  have hall : Gen.Schemas.c_LEADER.plans.all (payloadPlanOK Gen.Schemas.c_LEADER 2 (enc "AcDbLeader") leaderFree) = true := by
+    decide +kernel
+  obtain ⟨hwf, hfree⟩ := seg_tags_free _ 2 _ leaderFree (fun t => by simp [leaderFree]) p (List.all_eq_true.mp hall p hp)
+    force ns rv subs hexp sub2 h2
+  refine ⟨?_, fun n a hn ha => attr_roundtrip _ _ _ hwf force ns rv subs hexp hns n a hn ha⟩
+  rw [hsplit]
+  exact leader_roundtrip' pre post vs (fun t ht => hfree t (by rw [hsplit]; simp [ht]))
+    (fun t ht => hfree t (by rw [hsplit]; simp [ht]))
+
+/-- **image_entity_roundtrip**: IMAGE with any namespace and a boundary path of any length -/
+theorem image_entity_roundtrip (p : Plan) (hp : p ∈ Gen.Schemas.c_IMAGE.plans)
+    (force : Bool) (ns : NS) (rv : Nat → Nat → Val) (subs : List (List LTag))
+    (hexp : exportEntity Gen.Schemas.c_IMAGE.attrs (stripPlan p) force ns rv = some subs)
+    (hns : ∀ a ∈ Gen.Schemas.c_IMAGE.attrs, ∀ v, ns.get a.name = some v → valOK a v = true)
+    (sub2 : List LTag) (h2 : subs[2]? = some sub2) (pre post : List Tag) (hsplit : untag sub2 = pre ++ post) (path : List P2) :
+    loadImageBoundary (pre ++ exportImageBoundary path ++ post) = (path, untag sub2) ∧
+    ∀ n a, n ∈ expNames Gen.Schemas.c_IMAGE.attrs (stripPlan p) → Gen.Schemas.c_IMAGE.attrs.find n = some a →
+      simO (observe a (loadEntity Gen.Schemas.recoverTable (stripPlan p) subs)) (observe a ns) := by
+  have hall : Gen.Schemas.c_IMAGE.plans.all
+      (payloadPlanOK Gen.Schemas.c_IMAGE 2 (enc "AcDbRasterImage") (fun t => !(t.code == 14))) = true := by
+    decide +kernel
+  obtain ⟨hwf, hfree⟩ := seg_tags_free _ 2 _ (fun t => !(t.code == 14)) (fun t => rfl) p (List.all_eq_true.mp hall p hp)
+    force ns rv subs hexp sub2 h2
+  refine ⟨?_, fun n a hn ha => attr_roundtrip _ _ _ hwf force ns rv subs hexp hns n a hn ha⟩
+  rw [hsplit]
+  exact image_roundtrip' pre post path
+    (fun t ht => by simpa using hfree t (by rw [hsplit]; simp [ht]))
+    (fun t ht => by simpa using hfree t (by rw [hsplit]; simp [ht]))
+
+/-- **hatch_entity_roundtrip**: HATCH with any namespace and any boundary paths (at least one), pattern lines, seed points
+    and gradient tags: the four runs of attribute tags `a1 … a4` are the AcDbHatch subclass that the attribute machinery
+    writes for the stripped plan; `a2` starts with hatch_style (75), `a4` with pixel_size (47) -/
+theorem hatch_entity_roundtrip (p : Plan) (hp : p ∈ Gen.Schemas.c_HATCH.plans)
+    (force : Bool) (ns : NS) (rv : Nat → Nat → Val) (subs : List (List LTag))
+    (hexp : exportEntity Gen.Schemas.c_HATCH.attrs (stripPlan p) force ns rv = some subs)
+    (hns : ∀ a ∈ Gen.Schemas.c_HATCH.attrs, ∀ v, ns.get a.name = some v → valOK a v = true)
+    (sub2 : List LTag) (h2 : subs[2]? = some sub2)
+    (comp : Nat → Nat) (sub : P2 → P2 → P2) (r2010 : Bool) (a1 a2 a3 a4 g : List Tag) (n : Int)
+    (paths : List BPath) (pat : Option (Int × List PLine)) (seeds : List P2)
+    (hsplit : untag sub2 = a1 ++ (a2 ++ (patAttrs a3 pat ++ a4))) (h3 : pat = none → a3 = [])
+    (h2h : ∃ t r, a2 = t :: r ∧ Gen.PayloadTables.pathCodes.contains t.code = false)
+    (h4h : ∃ t r, a4 = t :: r ∧ Gen.PayloadTables.patternCodes.contains t.code = false)
+    (hg : ∀ t, g.head? = some t → t.code = 450)
+    (hpok : ∀ q ∈ paths, pathOK q = true) (hne : paths ≠ []) (hls : ∀ m ls, pat = some (m, ls) → ls ≠ []) :
+    loadHatchAll Gen.PayloadTables.pathCodes Gen.PayloadTables.patternCodes comp
+        (exportHatchAll comp sub r2010 a1 a2 a3 a4 g n paths pat seeds) =
+      some (⟨paths.map (canonPath comp sub true), g, pat.map (·.2), seeds⟩, untag sub2) ∧
+    ∀ m a, m ∈ expNames Gen.Schemas.c_HATCH.attrs (stripPlan p) → Gen.Schemas.c_HATCH.attrs.find m = some a →
+      simO (observe a (loadEntity Gen.Schemas.recoverTable (stripPlan p) subs)) (observe a ns) := by
+  have hall : Gen.Schemas.c_HATCH.plans.all (payloadPlanOK Gen.Schemas.c_HATCH 2 (enc "AcDbHatch") hatchFree) = true := by
+    decide +kernel
+  obtain ⟨hwf, hfree⟩ := seg_tags_free _ 2 _ hatchFree (fun t => by simp [hatchFree]) p (List.all_eq_true.mp hall p hp)
+    force ns rv subs hexp sub2 h2
+  refine ⟨?_, fun m a hm ha => attr_roundtrip _ _ _ hwf force ns rv subs hexp hns m a hm ha⟩
+  rw [hsplit] at hfree ⊢
+  have f3 : ∀ t ∈ a3, hatchFree t = true := by
+    cases pat with
+    | none => rw [h3 rfl]; simp
+    | some ml => intro t ht; exact hfree t (by simp [patAttrs, ht])
+  exact hatch_entity_payload_roundtrip comp sub r2010 a1 a2 a3 a4 g n paths pat seeds
+    (fun t ht => hfree t (by simp [ht])) (fun t ht => hfree t (by simp [ht])) f3 (fun t ht => hfree t (by simp [ht]))
+    h2h h4h hg hpok hne hls
+
+/-- **mpolygon_entity_roundtrip**: MPOLYGON with any namespace, any polyline boundary paths (at least one) and pattern
+    lines: the whole AcDbMPolygon subclass in the order `MPolygon.export_entity` writes it (pattern lines behind
+    annotated_boundary / pixel_size, no seed points, gradient tags at the end) is taken apart by the same loader sequence;
+    the five runs of attribute tags are the subclass the attribute machinery writes for the stripped plan -/
+theorem mpolygon_entity_roundtrip (p : Plan) (hp : p ∈ Gen.Schemas.c_MPOLYGON.plans)
+    (force : Bool) (ns : NS) (rv : Nat → Nat → Val) (subs : List (List LTag))
+    (hexp : exportEntity Gen.Schemas.c_MPOLYGON.attrs (stripPlan p) force ns rv = some subs)
+    (hns : ∀ a ∈ Gen.Schemas.c_MPOLYGON.attrs, ∀ v, ns.get a.name = some v → valOK a v = true)
+    (sub2 : List LTag) (h2 : subs[2]? = some sub2)
+    (comp : Nat → Nat) (sub : P2 → P2 → P2) (r2010 : Bool) (a1 a2 a3 a4 a5 g : List Tag) (n : Int)
+    (paths : List BPath) (pat : Option (Int × List PLine))
+    (hsplit : untag sub2 = a1 ++ (a2 ++ (patAttrs a3 pat ++ (a4 ++ a5)))) (h3 : pat = none → a3 = [])
+    (h2h : ∃ t r, a2 = t :: r ∧ Gen.PayloadTables.pathCodes.contains t.code = false)
+    (h5h : ∀ t, (a5 ++ g).head? = some t → Gen.PayloadTables.patternCodes.contains t.code = false)
+    (hg : ∀ t, g.head? = some t → t.code = 450)
+    (hpok : ∀ q ∈ paths, pathOK q = true) (hne : paths ≠ []) :
+    loadHatchAll Gen.PayloadTables.pathCodes Gen.PayloadTables.patternCodes comp
+        (exportMPolygonAll comp sub r2010 a1 a2 a3 a4 a5 g n paths pat) =
+      some (⟨paths.map (canonPath comp sub false), g, pat.map (·.2), []⟩, untag sub2) ∧
+    ∀ m a, m ∈ expNames Gen.Schemas.c_MPOLYGON.attrs (stripPlan p) → Gen.Schemas.c_MPOLYGON.attrs.find m = some a →
+      simO (observe a (loadEntity Gen.Schemas.recoverTable (stripPlan p) subs)) (observe a ns) := by
+  have hall : Gen.Schemas.c_MPOLYGON.plans.all (payloadPlanOK Gen.Schemas.c_MPOLYGON 2 (enc "AcDbMPolygon") hatchFree) = true := by
+    decide +kernel
+  obtain ⟨hwf, hfree⟩ := seg_tags_free _ 2 _ hatchFree (fun t => by simp [hatchFree]) p (List.all_eq_true.mp hall p hp)
+    force ns rv subs hexp sub2 h2
+  refine ⟨?_, fun m a hm ha => attr_roundtrip _ _ _ hwf force ns rv subs hexp hns m a hm ha⟩
+  rw [hsplit] at hfree ⊢
+  have f3 : ∀ t ∈ a3, hatchFree t = true := by
+    cases pat with
+    | none => rw [h3 rfl]; simp
+    | some ml => intro t ht; exact hfree t (by simp [patAttrs, ht])
+  exact mpolygon_all_roundtrip' _ _ comp sub r2010 a1 a2 a3 a4 a5 g n paths pat
+    (by
+      have : Payload.pathCodes.all (fun c => Gen.PayloadTables.pathCodes.contains c) = true := by decide
+      intro c hc
+      exact List.all_eq_true.mp this c (by simpa using hc))
+    (by
+      have : plineCodes.all (fun c => Gen.PayloadTables.patternCodes.contains c) = true := by decide
+      intro c hc
+      exact List.all_eq_true.mp this c (by simpa using hc))
+    (fun t ht => hfree t (by simp [ht])) (fun t ht => hfree t (by simp [ht])) f3 (fun t ht => hfree t (by simp [ht]))
+    (fun t ht => hfree t (by simp [ht])) h2h h5h hg hpok hne
+
+/-! ### DICTIONARY, GROUP, MLINE: the payload loader works on what `fast_load_dxfattribs` leaves over -/
+
+/-- the mappings the plans of a class hand to `fast_load_dxfattribs` for subclass `k` -/
+def fastMappings (c : ClassSchema) (k : Nat) : List Mapping :=
+  c.plans.flatMap (fun p => p.loads.filterMap (fun st => match st with
+    | .fast m sub _ _ => if sub == k then some m else none
+    | .simple _ => none))
+
+/-- the payload group codes have no entry in the group code mappings of the registered classes (so the generic loader
+    hands the payload tags on as "unprocessed", in order) -/
+theorem payload_mappings_unmapped :
+    ((fastMappings Gen.Schemas.c_DICTIONARY 1).all (fun m => unmapped m 3 && unmapped m 350 && unmapped m 360) = true ∧
+      (fastMappings Gen.Schemas.c_DICTIONARY 1).length > 0) ∧
+    ((fastMappings Gen.Schemas.c_GROUP 1).all (fun m => unmapped m 340) = true ∧ (fastMappings Gen.Schemas.c_GROUP 1).length > 0) ∧
+    ((fastMappings Gen.Schemas.c_MLINE 2).all (fun m => mlineCodes.all (fun c => unmapped m c)) = true ∧
+      (fastMappings Gen.Schemas.c_MLINE 2).length > 0) := by
+  decide +kernel
+
+/-- **dict_entity_roundtrip**: for ANY group code mapping without entries for 3 / 350 / 360 and any attribute tags `A` of the
+    subclass: the dictionary entries behind them do not change the namespace `fast_load_dxfattribs` builds, and `load_dict`
+    recovers them from the unprocessed tags -/
+theorem dict_entity_roundtrip (m : Mapping) (A : List Tag) (ns : NS) (d : Dict) (hA : A ≠ [])
+    (hm : unmapped m 3 = true ∧ unmapped m 350 = true ∧ unmapped m 360 = true)
+    (hfree : ∀ t ∈ A, dictFree t = true) (hc : d.valueCode = 350 ∨ d.valueCode = 360)
+    (hk : d.items.Pairwise (fun a b => a.1 ≠ b.1)) :
+    (fastLoad m (A ++ exportDict d) ns).1 = (fastLoad m A ns).1 ∧
+    loadDict (fastLoad m (A ++ exportDict d) ns).2 = ⟨if d.items = [] then 350 else d.valueCode, d.items⟩ :=
+  dict_entity' m A ns d hA hm hfree hc hk
+
+theorem group_entity_roundtrip (m : Mapping) (A : List Tag) (ns : NS) (hs : List (List Nat)) (hA : A ≠ [])
+    (hm : unmapped m 340 = true) (hfree : ∀ t ∈ A, t.code ≠ 340) (hn : hs.Nodup) :
+    (fastLoad m (A ++ exportGroup hs) ns).1 = (fastLoad m A ns).1 ∧
+    loadGroup (fastLoad m (A ++ exportGroup hs) ns).2 = hs :=
+  group_entity' m A ns hs hA hm hfree hn
+
+theorem mline_entity_roundtrip (m : Mapping) (A : List Tag) (ns : NS) (vs : List MVertex) (hA : A ≠ [])
+    (hm : ∀ c, mlineCodes.contains c = true → unmapped m c = true) (hfree : ∀ t ∈ A, t.code ≠ 11)
+    (h : ∀ v ∈ vs, v.lps.length = v.fps.length) :
+    (fastLoad m (A ++ exportMLine vs) ns).1 = (fastLoad m A ns).1 ∧
+    loadMLine (fastLoad m (A ++ exportMLine vs) ns).2 = vs :=
+  mline_entity' m A ns vs hA hm hfree h
+
+#guard (fastLoad [(280, .one ⟨1, false⟩), (281, .one ⟨2, false⟩)]
+    ([⟨100, .str [7]⟩, ⟨280, .int 1⟩, ⟨281, .int 1⟩] ++ exportDict ⟨350, [([65], [49]), ([66], [50])]⟩) []).2
+  == exportDict ⟨350, [([65], [49]), ([66], [50])]⟩
+
+example : Gen.Schemas.c_SPLINE.plans.length > 0 ∧ Gen.Schemas.c_MESH.plans.length > 0 ∧ Gen.Schemas.c_MTEXT.plans.length > 0 ∧
+    Gen.Schemas.c_LEADER.plans.length > 0 := by decide +kernel
+
 end EzdxfVerif.Props.C01
+
